@@ -10,7 +10,7 @@ solo statistics (hence are additive over batches and independent of the partitio
 from simworld.core import H
 from . import common
 
-NPLANS = {"quick": 130, "thorough": 3000}
+NPLANS = {"quick": 50, "thorough": 3000}
 RULE = (
     "plan i = H(seed,'C06',i): 2-8 corpus reactions (duplicates allowed) x K contexts (K=3 quick, 6 thorough); "
     "each context draws a permutation, batch size in {None,1..n+1}, n_jobs in {1,2,4,16,-1}, forced inline/process "
